@@ -31,6 +31,7 @@ component!(quant, "quant");
 component!(bits, "bits");
 component!(huff, "huff");
 component!(backend, "backend");
+mod pyfront;
 
 use std::io::{BufRead, Write};
 use util::*;
@@ -107,6 +108,25 @@ fn main() {
                 }
                 // flush per line so that an abort (UB check) is attributable to the next line
                 out.flush().unwrap();
+            }
+        }
+        Some("pyfront") => {
+            // cvharness pyfront <cases.jsonl>: Rust-API answers for cases produced via the Python front end
+            let mut rep = Report::default();
+            pyfront::run_cases(args[2].as_str(), &mut rep);
+            for (k, v) in &rep.evals {
+                writeln!(out, "EVAL {} {}", k, v).unwrap();
+            }
+            for (k, v) in &rep.hist {
+                writeln!(out, "HIST {} {}", k, v).unwrap();
+            }
+            for (k, v) in &rep.samples {
+                for t in v {
+                    writeln!(out, "SAMPLE {} {}", k, t).unwrap();
+                }
+            }
+            for (k, v) in &rep.fails {
+                writeln!(out, "FAIL {} {}", k, v).unwrap();
             }
         }
         Some("oracle") => {
